@@ -499,7 +499,8 @@ func (w *wd) honestSpec(qm consensustypes.QueuedSignedMessageI, vs *valsetT, nSi
 	}
 	fees := func(f *evmtypes.Fees, sender []byte) feeT {
 		if f == nil {
-			f = &evmtypes.Fees{}
+			// no fees attached yet: pigeon (and the signing bytes) use these defaults
+			f = &evmtypes.Fees{RelayerFee: 100_000, CommunityFee: 100_000, SecurityFee: 100_000}
 		}
 		return feeT{new(big.Int).SetUint64(f.RelayerFee), new(big.Int).SetUint64(f.CommunityFee), new(big.Int).SetUint64(f.SecurityFee), leftPad32(sender)}
 	}
